@@ -346,6 +346,11 @@ impl Store {
                         None => (None, 0),
                     };
 
+                    // The historical frames may already add up to the limit
+                    if limit.is_some_and(|limit| count >= limit) {
+                        return;
+                    }
+
                     let mut broadcast_rx = broadcast_rx;
                     while let Ok(frame) = broadcast_rx.recv().await {
                         #[cfg(feature = "verif")]
